@@ -63,6 +63,17 @@ Proof.
     unfold bump; destruct k; cbn in *; try discriminate; lia.
 Qed.
 
+(* reading the AttemptStartTime into the newest event changes nothing the invariant speaks about *)
+Lemma Tr_stamp w c : Tr w -> Tr (stamp w c).
+Proof.
+  intros [Ha Hr Hh He Ht Hok]. unfold stamp. destruct (w_trace w) as [|e t] eqn:E; [constructor; rewrite ?E; assumption|].
+  constructor; cbn [w_attempts w_retries w_hedges w_executions w_trace w_now set_trace]; try assumption.
+  - rewrite Hr. rewrite !cntk_cons. reflexivity.
+  - rewrite Hh. rewrite !cntk_cons. reflexivity.
+  - rewrite He. rewrite !cntk_cons. reflexivity.
+  - cbn [trace_ok] in *. cbn [e_attempts e_retries e_hedges e_executions e_time]. rewrite !cntk_cons in *. cbn [e_kind]. exact Hok.
+Qed.
+
 (* updates that touch neither counters, trace nor clock *)
 Lemma Tr_frame w w' :
   w_attempts w' = w_attempts w -> w_retries w' = w_retries w -> w_executions w' = w_executions w ->
@@ -76,7 +87,7 @@ Qed.
 Ltac tr_frame H := apply (Tr_frame _ _); try reflexivity; try (cbn; lia); try exact H.
 
 Lemma Tr_ev_with_result w c k pos r : plain_kind k = true -> Tr w -> Tr (ev_with_result w c k pos r).
-Proof. intros. unfold ev_with_result. apply Tr_emit; assumption. Qed.
+Proof. intros. unfold ev_with_result. apply Tr_stamp; apply Tr_emit; assumption. Qed.
 
 Lemma Tr_mark_done w s e : Tr w -> Tr (mark_done w s e).
 Proof. intros H. unfold mark_done. destruct (sc_done (get_scope w s)); [exact H|]. apply (Tr_frame w); try reflexivity; try (cbn; lia); try exact H. Qed.
@@ -87,7 +98,7 @@ Proof.
   set (w1 := set_scopes w _ _ _).
   assert (H1 : Tr w1) by (apply (Tr_frame w); try reflexivity; try (cbn; lia); try exact H).
   set (w2 := emit w1 KTimeoutExceeded _ _ _).
-  assert (H2 : Tr w2) by (apply Tr_emit; [reflexivity|exact H1]).
+  assert (H2 : Tr w2) by (try apply Tr_stamp; apply Tr_emit; [reflexivity|exact H1]).
   destruct (copy_err w2 _); [exact H2|].
   apply Tr_mark_done. apply (Tr_frame w2); try reflexivity; try (cbn; lia); try exact H2.
 Qed.
@@ -121,7 +132,7 @@ Lemma Tr_finish_bg w b : Tr w -> Tr (finish_bg w b).
 Proof.
   intros H. unfold finish_bg.
   set (w1 := set_hedge w (w_hedges w) _ (w_hs w)). assert (H1 : Tr w1) by (apply Tr_set_hedge_same, H).
-  pose proof (Tr_fn_end w1 (bg_pos b) (bg_out b) H1) as H3.
+  pose proof (Tr_stamp _ (bg_copy b) (Tr_fn_end w1 (bg_pos b) (bg_out b) H1)) as H3.
   match goal with |- context [if ?c then _ else _] => destruct c end; [|exact H3].
   eapply Tr_frame; [..|exact H3]; try reflexivity; cbn; lia.
 Qed.
@@ -165,23 +176,23 @@ Proof.
   intros c w H. unfold fn_layer.
   set (w0 := set_script w _).
   assert (H0 : Tr w0) by (apply (Tr_frame w); try reflexivity; try (cbn; lia); try exact H).
-  set (w1 := emit w0 KFnStart pos _ 0).
-  assert (H1 : Tr w1) by (apply Tr_emit; [reflexivity|exact H0]).
+  set (w1 := stamp (emit w0 KFnStart pos _ 0) c).
+  assert (H1 : Tr w1) by (apply Tr_stamp; apply Tr_emit; [reflexivity|exact H0]).
   destruct (fs_coop _) as [co|].
   - match goal with |- context [wait w1 ?d ?i] => pose proof (Tr_wait w1 d i H1) as Hw; destruct (wait w1 d i) as [ii w'] end.
     cbn [snd] in *. destruct ii.
     + match goal with |- context [wait w' ?d ?i] => pose proof (Tr_wait w' d i Hw) as Hw2; destruct (wait w' d i) as [jj w''] end.
-      cbn [snd] in *. apply Tr_fn_end. exact Hw2.
-    + cbn [snd]. apply Tr_fn_end. exact Hw.
+      cbn [snd] in *. apply Tr_stamp, Tr_fn_end. exact Hw2.
+    + cbn [snd]. apply Tr_stamp, Tr_fn_end. exact Hw.
   - match goal with |- context [wait w1 ?d ?i] => pose proof (Tr_wait w1 d i H1) as Hw; destruct (wait w1 d i) as [ii w'] end.
-    cbn [snd] in *. apply Tr_fn_end. exact Hw.
+    cbn [snd] in *. apply Tr_stamp, Tr_fn_end. exact Hw.
 Qed.
 
 
 Lemma Tr_emit_bevents pos evs : forall w, Tr w -> Tr (emit_bevents w pos evs).
 Proof.
   unfold emit_bevents. induction evs as [|e evs IH]; intros w H; cbn [fold_left]; [exact H|].
-  apply IH. apply Tr_emit; [reflexivity|exact H].
+  apply IH. try apply Tr_stamp; apply Tr_emit; [reflexivity|exact H].
 Qed.
 
 Lemma Tr_set_insts w b l k c : Tr w -> Tr (set_insts w b l k c).
@@ -220,7 +231,7 @@ Proof.
   destruct (nth inst (w_limiters w) _) as [[cfg base] s].
   destruct (lim_acquire cfg s (w_now w - base) 1 mw) as [wt s'].
   set (w1 := set_insts w _ _ _ _). assert (H1 : Tr w1) by (apply Tr_set_insts, H).
-  destruct (wt =? -1); [cbn [snd]; apply Tr_emit; [reflexivity|exact H1]|].
+  destruct (wt =? -1); [cbn [snd]; try apply Tr_stamp; apply Tr_emit; [reflexivity|exact H1]|].
   pose proof (Tr_wait w1 wt (Some c) H1) as Hw. destruct (wait w1 wt (Some c)) as [i w2]. cbn [snd] in Hw.
   destruct i; [exact Hw|apply Hi; exact Hw].
 Qed.
@@ -233,9 +244,9 @@ Proof.
   destruct (held <? cap).
   - match goal with |- context [inner c ?w1] => assert (H1 : Tr w1) by (apply Tr_set_insts, H); specialize (Hi c w1 H1); destruct (inner c w1) as [r w2] end.
     cbn [snd] in Hi. destruct (nth inst (w_bulkheads w2) (0, 0)) as [cap2 held2]. cbn [snd]. apply Tr_set_insts, Hi.
-  - destruct (mw =? 0); [cbn [snd]; apply Tr_emit; [reflexivity|exact H]|].
+  - destruct (mw =? 0); [cbn [snd]; try apply Tr_stamp; apply Tr_emit; [reflexivity|exact H]|].
     pose proof (Tr_wait w mw (Some c) H) as Hw. destruct (wait w mw (Some c)) as [i w1]. cbn [snd] in Hw.
-    destruct i; [exact Hw|cbn [snd]; apply Tr_emit; [reflexivity|exact Hw]].
+    destruct i; [exact Hw|cbn [snd]; try apply Tr_stamp; apply Tr_emit; [reflexivity|exact Hw]].
 Qed.
 
 Lemma timeout_layer_preserves pos limit inner : preserves inner -> preserves (timeout_layer pos limit inner).
@@ -252,7 +263,7 @@ Proof.
   destruct (is_failure (fb_fpol cfg) (pr_out r)).
   - set (w2 := ev_with_result w1 c KPolFailure pos _). assert (H2 : Tr w2) by (apply Tr_ev_with_result; [reflexivity|exact Hi]).
     cbn [pr_succ with_failure]. destruct (is_canceled w2 c); [exact H2|].
-    cbn [snd]. apply Tr_emit; [reflexivity|exact H2].
+    cbn [snd]. try apply Tr_stamp; apply Tr_emit; [reflexivity|exact H2].
   - cbn [pr_succ with_done]. cbn [snd]. apply Tr_ev_with_result; [reflexivity|exact Hi].
 Qed.
 
@@ -260,8 +271,8 @@ Lemma cache_layer_preserves pos inst cfg inner : preserves inner -> preserves (c
 Proof.
   intros Hi c w H. unfold cache_layer.
   destruct (if cache_key w cfg =? 0 then None else _) as [v|].
-  - cbn [snd]. apply Tr_emit; [reflexivity|exact H].
-  - match goal with |- context [inner c ?w1] => assert (H1 : Tr w1) by (apply Tr_emit; [reflexivity|exact H]); specialize (Hi c w1 H1); destruct (inner c w1) as [r w2] end.
+  - cbn [snd]. try apply Tr_stamp; apply Tr_emit; [reflexivity|exact H].
+  - match goal with |- context [inner c ?w1] => assert (H1 : Tr w1) by (try apply Tr_stamp; apply Tr_emit; [reflexivity|exact H]); specialize (Hi c w1 H1); destruct (inner c w1) as [r w2] end.
     cbn [snd] in Hi. destruct (_ && _); cbn [snd]; [|exact Hi].
     apply Tr_ev_with_result; [reflexivity|]. apply Tr_set_insts, Hi.
 Qed.
@@ -298,12 +309,12 @@ Proof.
     destruct (pr_done r2); [exact H2|].
     destruct (is_canceled w2 c); [exact H2|].
     set (w3 := set_copy_last w2 c (pr_out r2)). assert (H3 : Tr w3) by (apply Tr_set_copy_last, H2).
-    set (w4 := emit w3 KRetryScheduled pos _ _). assert (H4 : Tr w4) by (apply Tr_emit; [reflexivity|exact H3]).
+    set (w4 := stamp (emit w3 KRetryScheduled pos _ _) c). assert (H4 : Tr w4) by (apply Tr_stamp; apply Tr_emit; [reflexivity|exact H3]).
     pose proof (Tr_wait w4 (retry_delay cfg w3) (Some c) H4) as H5. destruct (wait w4 _ (Some c)) as [ii w5]. cbn [snd] in H5.
     destruct (is_canceled w5 c); [exact H5|].
     (* InitializeRetry: attempts and retries +1, then the retry event *)
     match goal with |- context [retry_loop fuel cfg pos inner c ?w9] => assert (H9 : Tr w9) end.
-    { unfold ev_with_result. apply (Tr_emit_gen w5); try reflexivity; try exact H5; cbn; lia. }
+    { unfold ev_with_result. apply Tr_stamp. apply (Tr_emit_gen w5); try reflexivity; try exact H5; cbn; lia. }
     specialize (IH c _ H9). destruct (retry_loop fuel cfg pos inner c _) as [[rr ww] n]. exact IH.
 Qed.
 
@@ -326,9 +337,9 @@ Proof.
   match goal with |- context [set_script ?w3 _] => set (w3' := w3) end.
   assert (H3 : Tr w3').
   { subst w3'. destruct k as [|k']; [exact H2|].
-    apply (Tr_emit_gen w2); try reflexivity; try exact H2; cbn; lia. }
+    apply Tr_stamp. apply (Tr_emit_gen w2); try reflexivity; try exact H2; cbn; lia. }
   set (w4 := set_script w3' _). assert (H4 : Tr w4) by (apply (Tr_frame w3'); try reflexivity; try (cbn; lia); exact H3).
-  set (w5 := emit w4 KFnStart total _ _). assert (H5 : Tr w5) by (apply Tr_emit; [reflexivity|exact H4]).
+  set (w5 := stamp (emit w4 KFnStart total _ _) _). assert (H5 : Tr w5) by (apply Tr_stamp; apply Tr_emit; [reflexivity|exact H4]).
   apply Tr_refresh_bg, Tr_set_hedge_same, H5.
 Qed.
 
@@ -373,7 +384,7 @@ Proof.
   intros H0. unfold execute.
   pose proof (compose_preserves fuel stack 0 (length stack) 0%nat _ H0) as H.
   destruct (compose fuel 0 stack (length stack) 0%nat _) as [r w1]. cbn [snd] in *.
-  apply Tr_emit; [reflexivity|]. destruct (pr_all r); apply Tr_emit; try reflexivity; exact H.
+  try apply Tr_stamp; apply Tr_emit; [reflexivity|]. destruct (pr_all r); try apply Tr_stamp; apply Tr_emit; try reflexivity; exact H.
 Qed.
 
 Lemma Tr_drain w : Tr w -> Tr (drain w).
